@@ -18,7 +18,7 @@ Inductive kstep :=
 | KEnd (id : nat) (f : family) (h : how) (x : exitc)                     (* a running long-lived command is ended *)
 | KKillAt (id : nat) (f : family) (pa : path) (x : exitc) (m : emsg)     (* started and SIGKILLed after a delay; x <> XSig: it had exited by itself *)
 | KBurst (f : family) (ms : list (nat * bool * emsg))                    (* long-lived commands started simultaneously: id, ready, message *)
-| KPlant (id : nat).                                                     (* what a process killed between Create and Write leaves: an empty lock file *)
+| KPlant (id : nat).                                                     (* an empty lock file, as left by a process of an older version killed between creating it and writing its pid *)
 
 Record sobs := mkso { so_step : kstep; so_lock : lk; so_alive : list nat }.   (* lock file and live ready long-lived processes after the step *)
 Record case := mkLcase { l_steps : list sobs }.
@@ -137,9 +137,9 @@ Definition succ (k : kstep) (s : st) : list st :=
   | KBurst f os =>
       let ms := map (fun o => mkmb (fst (fst o)) 0 Ignored) os in
       map fst (filter (fun r => mbs_match (snd r) os) (inter (S (3 * length ms)) s ms))
-  | KPlant id =>
-      match step s (Test id) with
-      | (s1, Granted) => [fst (kill1 (fst (step s1 (Create id))) id)]
+  | KPlant id =>   (* what the pinned tree's open leaves when killed between its two steps *)
+      match step s (TestPinned id) with
+      | (s1, Granted) => [fst (kill1 (fst (step s1 (CreatePinned id))) id)]
       | _ => []
       end
   end.
